@@ -25,6 +25,7 @@ def run(tier):
     ef = kv.emit(c, "kv6-fine", kv.consts(keys="Keys1", pats="Pats2", invals=("x",), exps=("f23", "f27"), maxnow=30, many=1), workers=6)
     c.replay("kv", ef, variant="redis", extra={"redis_tick_ms": 100}, timeout=2400)
     expiry_race(c)
+    brief_records(c)
     c.assumptions += ["in-memory backend: real clock, 30 ms ticks; calls run at even ticks, expirations sit at odd ticks; a behaviour during "
                       "which the host stalled past its window is re-run with a doubled tick and, after 3 attempts, not judged",
                       "Redis backend: miniredis virtual clock (FastForward), 1 s ticks",
@@ -33,6 +34,22 @@ def run(tier):
                          "time advanced past some expirations up to twice, every operation kind as the first to touch the expired key) "
                          "replayed on both backends; the contract drops expired records at Advance, so any reply that differs between "
                          "'expired' and 'deleted' is a mismatch")
+
+
+def brief_records(c):
+    """Records that live for microseconds, each with a waiter arriving in its last instants (in-memory backend): an expired record
+    is a deleted one for the waiter too - ErrNotExist, not a call that never returns (PromptTrace.tla, `brief` line)."""
+    import json
+    trace = c.path("trace", "kvbrief.ndjson")
+    c.run_vh(["drive", "kvwait-prompt", "-seed", c.seed, "-out", trace, "-x", "only=brief"], timeout=300)
+    cfg = c.write_cfg("kv", "PromptTrace", constants={"Bound": 1000}, postcondition="Accepted")
+    ok, at, _ = c.validate_trace("kv", "PromptTrace", cfg, trace, label="PromptTrace-brief")
+    lines = open(trace).read().splitlines()
+    if ok:
+        c.traces_validated += len(lines)
+        return
+    c.report_failure("kv: waiters on records that ran out within microseconds never returned / returned something else than ErrNotExist",
+                     {"rejected_at_line": at, "history": lines[:at], "trace": {"comp": "kv", "module": "PromptTrace", "constants": {"Bound": 1000}}})
 
 
 def expiry_race(c):
